@@ -101,6 +101,9 @@ def gen_cases(rng, tier):
                 # values that compare equal but encode differently (0.0 / -0.0 / 0 / False, 1 / 1.0 / True), each format, each route, in every order
                 steps.append({'op': 'floatval', 'name': rng.choice(['float', 'floatle', 'floatbe', 'floatne', 'bfloat', 'bfloatle', 'e4m3mxfp', 'e5m2mxfp', 'p4binary', 'p3binary', 'e2m1mxfp', 'mxint']),
                               'n': rng.choice([16, 32, 64]), 'v': rng.choice(['0.0', '-0.0', '0', 'False', '1', '1.0', 'True', '-1.0']), 'route': rng.choice(['kw', 'token', 'pack', 'build', 'array', 'setattr'])})
+            elif r < 0.9875: steps.append({'op': 'dtype_flush', 'base': rng.choice(['uint', 'int', 'bits', 'bin']), 'k': 300})       # more distinct Dtypes than any cache holds
+            elif r < 0.992: steps.append({'op': 'array_again', 'd': rng.choice(['uint8', 'int16', 'float32', 'hex4', 'uint8'])})   # Arrays of one dtype made before and after other calls
+            elif r < 0.995: steps.append({'op': 'dtype_from_dtype', 'd': rng.choice(['uint8', 'int16', 'float32', 'uint']), 'scale': rng.choice([None, 4, 0.5]), 'length': rng.choice([None, 8])})
             else: steps.append({'op': 'find', 'bits': rand_bits(rng, 24), 'pat': rand_bits(rng, 8)})
         if h == 0:
             # first use of every lazily initialised table under the NON-default option values, then the default ones again
@@ -168,6 +171,24 @@ def do_call(st):
         return [repr(x) for x in (data.unpack(fmt) if st['how'] == 'unpack' else data.readlist(fmt))]
     if op == 'find':
         return list(Bits(bin=st['bits'] + st['pat'] + '0000').find(Bits(bin=st['pat'])))
+    if op == 'dtype_flush':
+        return len({str(Dtype(st['base'], k)) for k in range(1, st['k'] + 1)})
+    if op == 'array_again':
+        from bitstring import Array
+        vals = {'uint8': [1, 2], 'int16': [-1, 2], 'float32': [0.5, 2.0], 'hex4': ['a', 'b']}[st['d']]
+        a = Array(st['d'], vals); b = _KEEP.get(st['d']) or Array(st['d'], vals[:1])        # b: an Array of the same dtype made by an EARLIER call, when there was one
+        _KEEP[st['d']] = Array(st['d'], vals[:1])
+        out = []
+        for name, fn in (('extend', lambda: (a.extend(b), a.tolist())[1]), ('from_array', lambda: Array(st['d'], b).tolist()), ('eq', lambda: (a == a).tolist()), ('add', lambda: str((b + b).dtype)),
+                         ('dtype', lambda: [str(a.dtype), a.dtype.bitlength, repr(a.dtype.scale)])):
+            out.append([name, list(attempt(fn))])
+        return [[n, [r[0], [x.hex() if isinstance(x, float) else x for x in r[1]] if isinstance(r[1], list) else r[1]]] for n, r in out]
+    if op == 'dtype_from_dtype':
+        base = Dtype(st['d'])
+        kw = {} if st['scale'] is None else {'scale': st['scale']}
+        r = attempt(lambda: Dtype(base, st['length'], **kw) if st['length'] is not None else Dtype(base, **kw))
+        again = Dtype(st['d'])
+        return [r[0], str(r[1]) if r[0] == 'ok' else r[1], str(again), repr(again.scale), again.bitlength]
     if op == 'kwfmt':
         data = bitstring.ConstBitStream(bin='1011001110001111' * 8)
         kw = st['kw']
@@ -196,6 +217,8 @@ def do_call(st):
         else:
             o = BitArray(); setattr(o, tok.replace(':', ''), v)
         return o.bin
+
+_KEEP = {}      # objects that survive from one call of a history to a later one (their use must not depend on what happened in between)
 
 def set_opts(o):
     import bitstring
